@@ -16,7 +16,8 @@ text=f'''
 
 {n} changes (one aimed at each of the 19 properties, a second one for C02-C05, C07-C09, C11-C13, C15, C16, a third one for
 C01, C02, C04, C06, C07, C10, C18, C19, a fourth-round one for C03, C05, C09, C11, C12, C15, C16 and a fifth-round one for
-C02, C04, C06, C07, C10, C18, C19 and a sixth-round one for C03, C05, C09, C12, C13, C14, C15, C16) were written by
+C02, C04, C06, C07, C10, C18, C19, a sixth-round one for C03, C05, C09, C12, C13, C14, C15, C16 and a seventh-round one for
+C01, C02, C04, C06, C07, C09, C17, C19) were written by
 fresh sub-agents that were given only the text of one property and a scratch worktree of /repo under /tmp (nothing from
 /verif); each was asked for a change that compiles, keeps the 268 pinned tests green and needs something specific to
 manifest, with a demonstration that fails with the change and passes without it. Every change was re-confirmed by
@@ -24,18 +25,22 @@ manifest, with a demonstration that fails with the change and passes without it.
 stored as `seeded/<id>/{{patch.diff, seed_demo.rs (or .sh), README.md, meta.json}}`; the worktrees and their build output
 were removed afterwards. To run the checks against a change `tools/run_seed.sh <id> <checks>` applies the patch to /repo
 (`git apply`), runs `./check`, and undoes it (`git checkout -- .`); nothing of this was ever committed to /repo. No
-request was refused by the permission system or a safety layer, by a sub-agent or by me. Sixteen later agents (second round: C01, C06, C10, C14, C17, C18, C19; third round: C14, C17; fourth round: C08, C13; fifth round: C01, C14, C17; sixth round: C08, C11) came back with the same change as an
+request was refused by the permission system or a safety layer, by a sub-agent or by me. Eighteen later agents (second round: C01, C06, C10, C14, C17, C18, C19; third round: C14, C17; fourth round: C08, C13; fifth round: C01, C14, C17; sixth round: C08, C11; seventh round: C01, C10) came back with the same change as an
 earlier one (for C06: the change already stored for C17): not stored twice. The third round's prompt added one sentence asking
 for a less obvious place than the first function that comes to mind, which produced changes in lib.rs orchestration code;
 the fifth round's prompt additionally asked to avoid the one function where the property's main mechanism lives (changes in the
 CLI's file writer, the APNG pre-pass, the deflater wrapper and the scan-line iterator's pass bookkeeping). The sixth round (same
-prompt) was reported by every targeted check at the first run: all eight stored changes, and the two duplicates as well.
+prompt) was reported by every targeted check at the first run: all eight stored changes, and the two duplicates as well. The seventh
+round named a source file per agent (tools/seed_prompt7.py) to get away from the places already covered: of its eight stored changes
+four were missed at first (C02g, C04g, C06g, C17g - for C02g and C06g the generator had been extended after reading the agent's
+summary and before the first run, so the miss was measured afterwards with the harness of the previous commit) and one (C09g) was
+first reported without a failing input.
 
 Result: **all {n} are reported by the check of the property they target**, {n-len(missed)} at the first run and {len(missed)} only after
 the check was strengthened (the miss and the remedy are in the table; every remedy is a wider generator, a new stream or
 an oracle clause stated from the property - none loosens anything, and all checks still pass on the unchanged tree).
 "no-failing-input-found" marks reports where only the correspondence broke; where that was the *target* property's
-report (C10, C17, C07e, C10e) the check was extended until it produced a concrete failing input or history.
+report (C10, C17, C07e, C10e, C09g) the check was extended until it produced a concrete failing input or history.
 
 | seeded change | needs, to manifest | reported by |
 |---|---|---|
@@ -108,6 +113,13 @@ What the misses taught (and what was changed):
   family of few-colour, high-depth Zopfli cases in corr-eval (with counters for how often the bound falls between a
   fast compressor's size and Zopfli's), and D3 is called directly on `Deflaters::deflate` (hook 70718ab) with limits on and
   around the unbounded size for every compressor and level.
+* **Seventh round**: C06's determinism oracle had no animated input (now: 3-8 recompressible frames, half with a damaged
+  middle frame - the call must fail the same way under every pool); the APNG generator wrote one IDAT chunk (now also
+  zero-length ones); C04's file oracle had no standard-output destination (now a two-stage run of the real executable: own
+  output, half of the time re-wrapped non-canonically, through `--stdout` with the same flags); C17's tie images never went
+  through the fast path's hand-over (now a third do, plus arithmetic-progression images on which a fixed filter and Bigrams tie
+  exactly); C09's byte oracle handed the library whatever options the binary had parsed, so a wrong preset was invisible to it
+  (now the manual's preset table is compared with the parsed options).
 '''
 p='/verif/DESIGN.md'
 s=open(p).read()
